@@ -185,8 +185,15 @@ func serviceRules(svcs []map[string]interface{}) string {
 	return ""
 }
 
+// protectedPath: the pointer addresses the publicKey or service section or something inside it. (The library
+// refuses every path that merely starts with those names, e.g. /publicKeys - a superset, which the statement allows.)
 func protectedPath(s string) bool {
-	return strings.HasPrefix(s, "/publicKey") || strings.HasPrefix(s, "/service")
+	for _, sec := range []string{"/publicKey", "/service"} {
+		if s == sec || strings.HasPrefix(s, sec+"/") {
+			return true
+		}
+	}
+	return false
 }
 
 // brokenRule returns the first stated rule the (accepted) patch list violates, or "".
